@@ -61,7 +61,7 @@ Lemma prog_weights_nth g target ctx : forall alts ws, prog_weights g target ctx 
   forall i x q, nth_error alts i = Some x -> nth_error ws i = Some q -> exists h : Z, q = (inject_Z h * prod_weight g x)%Q.
 Proof.
   induction alts as [|a t IH]; intros ws H i x q Hx Hq; cbn [prog_weights] in H; [destruct i; discriminate|].
-  destruct (if in_rec g a then Ok (target / (c_depth ctx + 1)) else let* v := gdist_ty g a in Ok (target - v)) as [w|] eqn:Ew; cbn [bind] in H; [|discriminate].
+  destruct (if in_rec g a then _ else _) as [w|] eqn:Ew; cbn [bind] in H; [|discriminate].
   destruct (prog_weights g target ctx t) as [r|] eqn:Er; cbn [bind] in H; [|discriminate]. inversion H; subst ws. clear H.
   destruct i as [|i']; cbn [nth_error] in Hx, Hq.
   - inversion Hx; inversion Hq; subst. exists w. reflexivity.
